@@ -615,3 +615,62 @@ func PlantLongString(v Val, n int) (Val, bool) {
 	}
 	return v, false
 }
+
+// CollidingDateKeys reports whether v (typed by env at ty) holds a date-keyed map in which two keys print alike.
+// The protocol prints a time.Time as its 100ns tick count (UnixNano()/100); on corrupted input ReadDateBytes
+// multiplies an arbitrary int64 by 100 with wrap-around, and two instants that differ below one tick are distinct
+// keys of the Go map but one key of the printed value -- an answer of this kind says less than the Go value holds.
+func CollidingDateKeys(env *schema.Env, ty schema.Ty, v Val) bool {
+	switch ty.K {
+	case schema.TyArr:
+		for _, e := range v.Elems {
+			if CollidingDateKeys(env, *ty.Elem, e) {
+				return true
+			}
+		}
+	case schema.TyMap:
+		if ty.Key.K == schema.TyDate {
+			seen := map[string]bool{}
+			for _, k := range v.Keys {
+				s := k.String()
+				if seen[s] {
+					return true
+				}
+				seen[s] = true
+			}
+		}
+		for _, e := range v.Elems {
+			if CollidingDateKeys(env, *ty.Elem, e) {
+				return true
+			}
+		}
+	case schema.TyRef:
+		if ty.Ref < 0 || ty.Ref >= len(env.Defs) {
+			return false
+		}
+		d := env.Defs[ty.Ref]
+		switch d.Kind {
+		case schema.Struct:
+			for i, e := range v.Elems {
+				if i < len(d.Fields) && CollidingDateKeys(env, d.Fields[i].Ty, e) {
+					return true
+				}
+			}
+		case schema.Message:
+			for i, e := range v.Elems {
+				for _, fd := range d.Fields {
+					if i < len(v.Idx) && fd.Idx == v.Idx[i] && CollidingDateKeys(env, fd.Ty, e) {
+						return true
+					}
+				}
+			}
+		case schema.Union:
+			for _, b := range d.Branches {
+				if b.Disc == v.Disc && len(v.Elems) == 1 {
+					return CollidingDateKeys(env, schema.Ty{K: schema.TyRef, Ref: b.Ref}, v.Elems[0])
+				}
+			}
+		}
+	}
+	return false
+}
